@@ -52,6 +52,10 @@ claimed = {
    text="checkACL is proved against the first-match specification for every rule list and address: empty list grants; unparsable address denies; otherwise nil <=> (the first rule that is not skipped [well formed and not covering the address] is a well-formed covering allow rule) or every rule is skipped - reaching a malformed rule is an error (nested-quantifier postcondition, loop invariant 'all earlier rules were skipped'). HandleDaemonConn: handleConn is reached only after checkACL returned nil for the requested module's own ACL list and this connection's address.",
    note="Trusted: net.SplitHostPort/ParseIP/ParseCIDR/IPNet.Contains (IPv4, IPv6, v4-mapped handling lives there), strings.Index.",
    design="4.19"),
+ "C17": dict(
+   text="Frame contracts proved on the real multiplexer, all payloads and all frame sequences: writeFrame emits exactly (7+tag)<<24|len as a little-endian word followed by the given slice unchanged (ghost stream accumulator), under the precondition tag<=2 and len<=262144 that is proved at its call sites; WriteMsg/Write accept payloads of any length and are proved to cut them into consecutive, gap-free parts of at most maxMessageSize bytes each (loop invariant 'sent prefix'), returning len(p) on success; ReadMsg decodes tag and length as the inverse of that encoding (a lemma proved by the solver) and accepts at most maxMessageSize bytes; Read delivers a data frame whole (never truncating: the buffer precondition >= maxMessageSize is proved at bufio.NewReaderSize in ClientRun), yields (0,nil) for an info frame and an error for an error frame or unknown tag, and its panic is proved unreachable. A defect (payloads above the limit were sent as one over-limit frame, from 16 MiB on with a corrupted tag) was found as a failing obligation, replayed and fixed.",
+   note="Trusted: io.Reader/io.Writer laws of the callers (bufio.Reader.Read, io.ReadFull, binary.Read/Write): a (0,nil) read is retried, bytes are consumed in order - this is what turns the per-frame contract into 'any re-framing yields the same byte stream'; the text of the error carried by an error frame is not checked (fmt.Errorf is opaque).",
+   design="4.17"),
 }
 not_yet = "check not built yet in this session (work in progress; see DESIGN.md for the planned contract)"
 na = {"C18": "liveness under all schedules / deadlock freedom / data-race freedom are whole-history and concurrency properties; per-function pre/postconditions over sequential SSA cannot express them and govc has no model of goroutines or channels (DESIGN.md §4.18)"}
